@@ -24,7 +24,7 @@ def run(ctx):
           ("MC_Conn", "MC_Conn_noheadloop.cfg", dict(workers=2, expect_violation=True))]
     gen = [("ConnGen", "Gen_Conn_c06.cfg" if q else "Gen_Conn_c06_deep.cfg", dict(workers=6, timeout=1800))]
     obs, _ = standard_pipeline(ctx, sub="conn", mc=mc, gen=gen, trace=TRACE, random_n=300 if q else 6000, nontrivial=nontrivial,
-                               post_gen=None, jobs=12, timeout_ms=20000, chunk=20000)
+                               post_gen=None, jobs=12, timeout_ms=90000, chunk=20000)
     obs = [o for o in obs]
     drift = sum(1 for o in obs if o["scn"].get("model", {}).get("resp") and o["obs"].get("kind") == "conn"
                 and [r["k"] for r in o["obs"]["mem"]["resp"]] != o["scn"]["model"]["resp"])
